@@ -109,6 +109,12 @@ extern "C" int sim_main(int argc, char** argv) {
   int g0 = argc > 5 ? atoi(argv[5]) : 0;
   const char* td = getenv("SIMMPI_TMP");
   std::string dir = std::string(td ? td : ".") + "/data";
+  // LINES_PATHLEN=L: pad the directory so that the path string of a top-level file ("<dir>/f000.txt", 9 characters after
+  // the directory) is exactly L characters long (boundary lengths of the serialized path: 255, 256, ...)
+  if (const char* pl = getenv("LINES_PATHLEN")) {
+    size_t L = strtoull(pl, nullptr, 10), base = std::string(td ? td : ".").size() + 1 + 5 + 9;
+    if (L > base + 1 && L - base - 1 <= 250) dir = std::string(td ? td : ".") + "/" + std::string(L - base - 1, 'p') + "/data";
+  }
   bool tree = pathmode == "tree-rec" || pathmode == "tree-flat";
 
   // ---- read the spec (every rank: only the file count is needed off rank 0)
